@@ -85,7 +85,8 @@ extern int mpt_notify_wait(MPT_STRUCT(notify) *no, int what, int timeout)
 	}
 #endif
 	fdmax = ret * sizeof(*ev);
-	if (!(ev = mpt_array_slice(&no->_wait, 0, fdmax))) {
+	/* poll set goes behind the inputs still pending from the last wait */
+	if (!(ev = mpt_array_slice(&no->_wait, used, fdmax))) {
 		return MPT_ERROR(BadOperation);
 	}
 	buf = no->_wait._buf;
@@ -107,7 +108,7 @@ extern int mpt_notify_wait(MPT_STRUCT(notify) *no, int what, int timeout)
 	if ((act = poll(ev, cnt, timeout)) <= 0) {
 		return (buf->_used = used) ? (int) (used / sizeof(curr)) : act;
 	}
-	slot = (MPT_INTERFACE(input) **) ev;
+	slot = (MPT_INTERFACE(input) **) (buf + 1);
 	
 	/* poll() returns the number of ready entries, they may be anywhere in the set */
 	for (i = 0, fdmax = 0; i < cnt; i++) {
